@@ -1714,6 +1714,27 @@ def run(tier, seed, only=None):
                                removed_points=[(p, RM_NAME[c]) for p, c in ex["points"]],
                                passive_observations=sum(ex["passive"].values())))
         shutil.rmtree(wd, ignore_errors=True)
+    # witnesses of repaired defects, kept as regression inputs: no sanitizer report, and the four algorithms end the
+    # same way with the same (defect, degrees of freedom, sum of squares)
+    if only is None:
+        fdir = os.path.join(os.path.dirname(os.path.dirname(os.path.dirname(os.path.abspath(__file__)))), "findings")
+        for name in ("C14-repro-singular-during-iterations.gkf", "C14-repro-singular-height-reason.gkf",
+                     "C14-repro-test-linearization-overflow.gkf", "C14-repro-unobserved-height.gkf",
+                     "C14-repro-angle-right-arm.gkf"):
+            path = os.path.join(fdir, name)
+            if not os.path.exists(path):
+                continue
+            runs = netlevel.run4(open(path).read(), ck.tmp, "regress-" + name.split(".")[0], outputs=("xml", "text"), trace=False)
+            vals = {}
+            for alg, g in runs.items():
+                if ck.sanitizer(g.rr, dict(regress=name, alg=alg), prefix="gama-local:"):
+                    continue
+                oc = netlevel.outcome(g)
+                vals[alg] = (oc, g.xml["defect"], g.xml["dof"], round(g.xml["sum_of_squares"], 2)) if oc == "adjusted" else (oc,)
+            ck.case(("regress", name))
+            if len(set(vals.values())) > 1:
+                ck.violation("regress:%s:algorithms-differ" % name.split(".")[0][4:],
+                             "the four algorithms treat the witness of a repaired defect differently: %s" % vals, dict(regress=name))
     ck.assumptions += [
         "positional misclosure as in the manual (lengths: |obs - computed|; directions/azimuths: |b| d0; angles: |b| "
         "max(d_left, d_right)); zenith angles: |b| * slope length, the band between mark-to-mark and "
